@@ -26,10 +26,13 @@ class ConcRun:
             cl = Client(self.server.port, timeout=10.0)
         except OSError:
             return
-        def one(argv, timeout=None):
+        def one(argv, timeout=None, extra=None):
             t0 = self.trace.now()
             r = cl.call(argv, timeout)
-            recs.append({'argv': argv, 'r': r, 't0': t0, 't1': self.trace.now() + 1})
+            rec = {'argv': argv, 'r': r, 't0': t0, 't1': self.trace.now() + 1}
+            if extra:
+                rec['extra'] = extra
+            recs.append(rec)
             return r
         one([b'ECHO', self.marker(ci)])
         start_evt.wait()
@@ -39,6 +42,8 @@ class ConcRun:
             kind = st[0]
             if kind == 'cmd':
                 one(st[1], st[2] if len(st) > 2 else None)
+            elif kind == 'eval':      # ('eval', argv, {'prog':..., 'sha':...}): a script of the DSL, program recorded for the spec
+                one(st[1], None, st[2])
             elif kind == 'pipe':
                 t0 = self.trace.now()
                 cl.send_raw(b''.join(resp.enc_cmd(a) for a in st[1]))
@@ -111,6 +116,8 @@ class ConcRun:
                 sargv = [x.get('v', []) for x in req['v']] if req.get('t') == 'arr' else None
                 ev = {'k': 'cmd', 'c': ci, 'argv': [list(a) for a in rec['argv']], 'r': resp.to_json(rec['r']),
                       't0': rec['t0'], 't1': rec['t1'], 'seq': e['seq']}
+                if 'extra' in rec:
+                    ev.update(rec['extra'])
                 if e['kind'] == 'cmd':
                     ev['sr'] = e['frames'][1]
                 else:
@@ -129,8 +136,10 @@ class ConcRun:
                 if ci not in opened:
                     opened.add(ci)
                     self.trace.emit({'k': 'open', 'c': ci})
-                self.trace.emit({'k': 'unlogged', 'c': ci, 'argv': [list(a) for a in rec['argv']],
-                                 'r': resp.to_json(rec['r']), 't0': rec['t0'], 't1': rec['t1']})
+                ev = {'k': 'unlogged', 'c': ci, 'argv': [list(a) for a in rec['argv']],
+                      'r': resp.to_json(rec['r']), 't0': rec['t0'], 't1': rec['t1']}
+                ev.update(rec.get('extra') or {})
+                self.trace.emit(ev)
         for ci in sorted(opened):
             self.trace.emit({'k': 'close', 'c': ci})
             self.trace.emit({'k': 'gone', 'c': ci})
